@@ -49,7 +49,7 @@ theorem zipWith_cons_mem {col : List Val} {vals : List (List Val)} {x : List Val
 
 theorem pushed_pushCol (s : St) (dd : DDesc) (col : List Val) (b : Bits) (hc : col.length = s.vals.length) :
     Pushed dd s ({ (s.pushDesc dd) with bits := b }.pushCol col) := by
-  refine ⟨rfl, fun l hl => zipWith_cons_head hc hl, fun h x hx => ?_, rfl, rfl, rfl, rfl, rfl, rfl⟩
+  refine ⟨rfl, fun l hl => zipWith_cons_head hc hl, fun h x hx => ?_, rfl, rfl, rfl, rfl, rfl, rfl, rfl⟩
   obtain ⟨c, l, h1, rfl⟩ := zipWith_cons_mem (show x ∈ List.zipWith (· :: ·) col s.vals from hx)
   show (c :: l).length = (dd :: s.descs).length
   rw [List.length_cons, List.length_cons, h l h1]
@@ -90,10 +90,11 @@ theorem pushOne_decPrimsC : PushOne decPrimsC where
     intro e n s s' h
     obtain ⟨b, v, rfl⟩ := C07.decNewRefvalC_shape e n s s' h
     refine ⟨rfl, fun l hl => ⟨.int v, ?_⟩, fun h => pushAll_al s s.descs (.int v) (.plain e) h,
-      rfl, rfl, rfl, rfl, rfl, rfl⟩
+      rfl, rfl, rfl, rfl, rfl, rfl, rfl⟩
     show (s.vals.map (Val.int v :: ·)).head? = _
     rw [List.head?_map, hl]
     rfl
+  constant := pushOne_decPrimsU.constant
   factor := by
     intro s v l h hl
     change decFactorC s = .ok v at h
